@@ -145,7 +145,14 @@ pub fn script(p: &mut Prng, max: usize) -> Script {
         5 => { let n = p.usize_below(40); Script::new_op_return(&p.bytes(n)) }
         _ => {
             // where the caller allows very large blobs, a quarter of them sit on the 128 KiB mark
-            let n = if max > 131_073 && p.chance(1, 4) { 131_071 + p.usize_below(3) } else { p.len_biased(max) };
+            let n = if max >= 4_000_000 {
+                // the largest byte vectors the decoders admit (MAX_VEC_SIZE = 4 000 000 bytes) and one byte less
+                3_999_999 + p.usize_below(2)
+            } else if max > 131_073 && p.chance(1, 4) {
+                131_071 + p.usize_below(3)
+            } else {
+                p.len_biased(max)
+            };
             Script::from(p.bytes(n))
         }
     }
